@@ -492,8 +492,32 @@ func TestC08Project(t *testing.T) {
 			}
 		}
 		desc := func() string { return d.String() + "requests " + strings.Join(reqs, " ; ") }
-		nreq := rapid.IntRange(1, 3).Draw(t, "nreq")
+		nreq := rapid.IntRange(1, 4).Draw(t, "nreq")
+		// every frame met so far with what it has to hold: a request may go to an earlier frame again (siblings forked
+		// from one parent), and all of them are observed once more when the chain is over
+		type node struct {
+			qf  qframe.QFrame
+			tab hx.Table
+			how string
+		}
+		nodes := []node{{cur, in, "receiver"}}
+		recheck := func() {
+			for _, nd := range nodes {
+				if len(nd.tab.Cols) == 0 {
+					continue
+				}
+				again, err := hx.Observe(nd.qf)
+				if err != nil || hx.Diff(nd.tab, again) != "" {
+					t.Fatalf("the result of %s no longer holds what it held when it was returned: %v %s\n%s", nd.how, err, hx.Diff(nd.tab, again), desc())
+				}
+			}
+		}
 		for step := 0; step < nreq; step++ {
+			if step > 0 && rapid.IntRange(0, 2).Draw(t, "fork") == 0 {
+				k := rapid.IntRange(0, len(nodes)-1).Draw(t, "forkfrom")
+				cur, in = nodes[k].qf, nodes[k].tab
+				reqs = append(reqs, fmt.Sprintf("(back to the result of %s)", nodes[k].how))
+			}
 			n := in.N()
 			names := in.Names()
 			if len(names) == 0 {
@@ -503,7 +527,7 @@ func TestC08Project(t *testing.T) {
 			var res qframe.QFrame
 			var want hx.Table
 			wantErr, eitherErr, skipRows := false, false, false
-			op := rapid.SampledFrom([]string{"select", "drop", "slice", "copy", "copy"}).Draw(t, "op")
+			op := rapid.SampledFrom([]string{"select", "drop", "slice", "copy", "copy", "addpair"}).Draw(t, "op")
 			run := func(f func()) {
 				if perr := hx.Safely(f); perr != nil {
 					t.Fatalf("%s panicked: %v\n%s", req, perr, desc())
@@ -572,6 +596,24 @@ func TestC08Project(t *testing.T) {
 				} else {
 					want = in.Rows(hx.Iota(n)[a:b])
 				}
+			case "addpair":
+				// two additions of a new column to the same receiver: siblings, each must hold its own column
+				// afterwards (the first one is observed again at the end of the chain)
+				src1 := rapid.SampledFrom(names).Draw(t, "pairsrc1")
+				src2 := rapid.SampledFrom(names).Draw(t, "pairsrc2")
+				new1, new2 := fmt.Sprintf("p%da", step), fmt.Sprintf("p%db", step)
+				req = fmt.Sprintf("Copy(%q,%q) and, on the same receiver, Copy(%q,%q)", new1, src1, new2, src2)
+				var first qframe.QFrame
+				run(func() { first = cur.Copy(new1, src1); res = cur.Copy(new2, src2) })
+				c1 := in.MustCol(src1)
+				c1.Name = new1
+				if first.Err != nil {
+					t.Fatalf("%s returned Err: %v\n%s", req, first.Err, desc())
+				}
+				nodes = append(nodes, node{first, in.With(c1), fmt.Sprintf("Copy(%q,%q)", new1, src1)})
+				c2 := in.MustCol(src2)
+				c2.Name = new2
+				want = in.With(c2)
 			case "copy":
 				src := rapid.SampledFrom(append(append([]string(nil), names...), "nosuchcol")).Draw(t, "src")
 				dst := rapid.SampledFrom(append(append([]string(nil), names...), "n1", "n2", "", "'q'", "$v", "'q\nq'")).Draw(t, "dst")
@@ -610,9 +652,11 @@ func TestC08Project(t *testing.T) {
 				if res.Len() != -1 {
 					t.Fatalf("%s: failed frame has Len()=%d\n%s", req, res.Len(), desc())
 				}
+				recheck()
 				evC08Proj.Case(false, desc, "op:"+op+":rejected")
 				return
 			case eitherErr && res.Err != nil:
+				recheck()
 				evC08Proj.Case(false, desc, "op:"+op+":unknown-rejected")
 				return
 			}
@@ -642,7 +686,9 @@ func TestC08Project(t *testing.T) {
 			}
 			evC08Proj.Class("op:" + op)
 			cur, in = res, want
+			nodes = append(nodes, node{res, want, req})
 		}
+		recheck()
 		evC08Proj.Case(d.NonIdentity() && d.Exp.N() >= 2, desc, fmt.Sprintf("chain=%d", len(reqs)))
 	})
 }
